@@ -2,7 +2,7 @@
    Every row yields (model_ok, spec_ok): model_ok compares the model with what the
    implementation (and the real PathFinder) returned; spec_ok evaluates the
    property predicate on the implementation's own output. *)
-From LP Require Import Prelude.Py Resolve.FsModel Resolve.ModPath Resolve.ModPathSpec.
+From LP Require Import Prelude.Py Resolve.FsModel Resolve.ModPath Resolve.ModPathSpec Resolve.ModPathSelect.
 
 Definition opt_path_eqb (a b : option path) : bool := opt_eqb path_eqb a b.
 
@@ -94,5 +94,57 @@ Definition m2n_row (fs : node) (p : path) (hi hm : bool)
    && split_eqb (split_modpath fs p) split_out
    && path_eqb (normalize fs p hi hm) norm_out,
    true).
+
+(* package_modpaths(pkg, with_pkg=True) *)
+Definition listpkg_row (fs : node) (pkg : path) (out : list path) : bool * bool :=
+  let model_ok := perm_eqb (package_modpaths_pkg fs pkg) out in
+  let spec_ok :=
+    if isfile fs pkg then path_list_eqb out [pkg]
+    else
+      forallb (listed_paths_pkg fs pkg) out
+      && path_nodupb out
+      && forallb (fun p => negb (listed_paths_pkg fs pkg p) || path_in p out) (all_files fs) in
+  (model_ok, spec_ok).
+
+Definition count_str (x : string) (l : list string) : nat := length (filter (String.eqb x) l).
+Definition str_perm_eqb (a b : list string) : bool :=
+  Nat.eqb (length a) (length b) && forallb (fun x => Nat.eqb (count_str x a) (count_str x b)) a.
+
+(* ProfmodExtractor._get_modnames_to_profile_from_prof_mod(script, entries) with sys.path = sys_path.
+   out: the list returned (None: an exception).  judge = Some comps: the entries are the single
+   dotted name comps in a tree whose file names are regular; then the selection must be the
+   name itself plus exactly the names under which the import system knows the modules and
+   sub-packages inside it. *)
+Definition select_row (fs : node) (sys_path : list path) (script : path) (entries : list pentry)
+           (out : option (list string)) (judge : option (list name)) : bool * bool :=
+  let model_ok :=
+    match modnames_to_profile fs sys_path script entries, out with
+    | Ok l, Some o => str_perm_eqb l o
+    | Err _, None => true
+    | _, _ => false
+    end in
+  let roots := dirname script :: sys_path in
+  let spec_ok :=
+    match judge with
+    | None => true
+    | Some comps =>
+        match import_name fs roots comps with
+        | Found p k =>
+            match out with
+            | None => false
+            | Some o =>
+                str_in (join "." comps) o
+                && forallb (fun s => match import_name fs roots (split dot s) with
+                                     | Found q _ => is_prefix p q
+                                     | _ => false
+                                     end) o
+                && forallb (fun q => negb (listed_paths_pkg fs p q)
+                                     || str_in (join "." (comps ++ relname (skipn (length p) q))) o)
+                           (all_files fs)
+            end
+        | _ => true
+        end
+    end in
+  (model_ok, spec_ok).
 
 Definition tree_ok (fs : node) : bool := wf_node fs.
